@@ -44,12 +44,15 @@ GROUPS = {
    [('cli_out_name_is_model', 'cli_out_name_eq')]),
  'group': ('dcmstack.py: the placement step of parse_and_group',
    [('group_place_is_model', 'group_place_eq'), ('group_place_keeps_keys_distinct', 'place_nodup')]),
+ 'content': ('dcmmeta.py: filter_meta, clear_slice_meta, get_keys',
+   [('filter_meta_filters_every_valid_dictionary', 'filter_meta_eq'), ('filter_meta_is_model', 'filter_meta_model'),
+    ('clear_slice_meta_is_model', 'clear_slice_meta_model'), ('get_keys_is_model', 'get_keys_model')]),
  'filter': ('dcmstack.py: make_key_regex_filter and its inner function',
    [('key_regex_filter_is_model', 'key_regex_filter_eq')]),
  'orient': ('dcmstack.py: the voxel_order checks of reorder_voxels',
    [('check_voxel_order_is_model', 'check_voxel_order_eq')]),
- 'phoenix': ('extract.py: _parse_phoenix_line',
-   [('parse_phoenix_line_is_model', 'parse_phoenix_line_eq')]),
+ 'phoenix': ('extract.py: _parse_phoenix_line, parse_phoenix_prot',
+   [('parse_phoenix_line_is_model', 'parse_phoenix_line_eq'), ('parse_phoenix_prot_is_model', 'parse_phoenix_prot_eq')]),
  'header': ('dcmstack.py: repetition time, dim_info and slice timing in DicomStack.to_nifti',
    [('header_slice_times_is_model', 'header_slice_times_eq'), ('header_dim_info_is_model', 'header_dim_info_eq')]),
  'stackadd': ('dcmstack.py: DicomStack.add_dcm, _chk_congruent, _chk_close, _chk_equal',
@@ -58,7 +61,7 @@ GROUPS = {
    [('file_idx_is_model', 'file_idx_eq'), ('file_idx_volume_is_model', 'file_idx_volume_eq'),
     ('get_data_trim_is_model', 'get_data_trim_eq')]),
 }
-EXTRA = {'subset': 'variable [DecidableEq α]\n', 'filter': 'variable {ρ : Type}\n', 'group': 'variable {E V : Type} [DecidableEq E]\n'}
+EXTRA = {'content': 'variable [DecidableEq κ]\n', 'subset': 'variable [DecidableEq α]\n', 'filter': 'variable {ρ : Type}\n', 'group': 'variable {E V : Type} [DecidableEq E]\n'}
 OPENS = {'extract': 'Src Ex', 'cli': 'Src Cli', 'group': 'Src Grp', 'orient': 'Src Orient', 'phoenix': 'Src Phx', 'header': 'Src Stk', 'stackadd': 'Src Stk', 'stack': 'Src Stk', 'data': 'Src Stk Wrap', 'wrapsplit': 'Src Wrap', 'wrapmerge': 'Src Wrap'}
 for grp, (srcfile, pairs) in GROUPS.items():
     mod = 'Code_' + grp
